@@ -44,6 +44,7 @@ def default_rng(seed=None):
     recs = _STATE['records']
     if recs is not None and kind != 'generator':
         recs.append({'what': 'default_rng', 'kind': kind, 'gen': gen,
+                     'arg': int(seed) if kind == 'int' else None,
                      'initial': _gen_state(gen)})
     if w is not None:
         w.log('rng', 'default_rng', kind)
@@ -62,6 +63,8 @@ def seed(seed=None):
     if recs is not None:
         st = np.random.get_state()
         recs.append({'what': 'seed', 'kind': kind, 'gen': None,
+                     'arg': int(seed) if isinstance(
+                         seed, (int, np.integer)) else None,
                      'initial': repr((st[0], st[1].tobytes(), st[2]))})
     if w is not None:
         w.log('rng', 'seed', kind)
@@ -101,5 +104,6 @@ def end_records():
         if r['gen'] is not None:
             moved = _gen_state(r['gen']) != r['initial']
         out.append({'what': r['what'], 'kind': r['kind'],
+                    'arg': r.get('arg'),
                     'initial': r['initial'], 'moved': moved})
     return out
